@@ -16,7 +16,9 @@ EXTENDS Naturals, Sequences, FiniteSets, TLC
 CONSTANTS Q,                \* capacity of the two message channels (10 in the code)
           NClient, NServer, \* messages the client / the backend want to send
           Calls,            \* identifiers of shim calls
-          CloseClosesChan   \* deviation (today's code): Close closes the channel SendClientMessage sends on
+          CloseClosesChan,  \* deviation (the code before the fix): Close closes the channel SendClientMessage sends on
+          DrainByCount      \* deviation: a poll takes len(channel) more messages with blocking receives instead of
+                            \* draining with a non-blocking select (check-then-act between concurrent polls)
 
 VARIABLES tab,        \* session table entry: "none" | "open" | "deleted"
           done,       \* connection context cancelled
@@ -34,7 +36,7 @@ VARIABLES tab,        \* session table entry: "none" | "open" | "deleted"
           last        \* (history) <<kind, status>> of the call answered most recently
 vars == <<tab, done, chClosed, cq, sq, sqClosed, writer, reader, nextC, nextS, backendRcvd, clientRcvd, backendSawClose, call, panic, bFirst, last>>
 
-Idle == [kind |-> "none", pc |-> "idle", status |-> 0]
+Idle == [kind |-> "none", pc |-> "idle", status |-> 0, held |-> <<>>, cnt |-> 0]
 Init == /\ tab = "open" /\ done = FALSE /\ chClosed = FALSE /\ cq = <<>> /\ sq = <<>> /\ sqClosed = FALSE
         /\ writer = "run" /\ reader = "run" /\ nextC = 1 /\ nextS = 1 /\ backendRcvd = <<>> /\ clientRcvd = <<>>
         /\ backendSawClose = FALSE /\ call = [c \in Calls |-> Idle] /\ panic = FALSE /\ bFirst = FALSE /\ last = <<"none", 0>>
@@ -75,7 +77,7 @@ WriterStep ==
 (* ---- data call: one message ---- *)
 DataStart(c) ==
   /\ call[c].pc = "idle" /\ nextC <= NClient
-  /\ call' = [call EXCEPT ![c] = [kind |-> "data", pc |-> "load", status |-> 0]]
+  /\ call' = [call EXCEPT ![c] = [Idle EXCEPT !.kind = "data", !.pc = "load"]]
   /\ UNCHANGED <<tab, done, chClosed, cq, sq, sqClosed, writer, reader, nextC, nextS, backendRcvd, clientRcvd, backendSawClose, panic>>
 DataLoad(c) ==          \* connections.Load
   /\ call[c].kind = "data" /\ call[c].pc = "load"
@@ -100,26 +102,44 @@ DataGiveUp(c) ==        \* repaired design: the send also selects on done, so it
 (* ---- poll call ---- *)
 PollStart(c) ==
   /\ call[c].pc = "idle"
-  /\ call' = [call EXCEPT ![c] = [kind |-> "poll", pc |-> "load", status |-> 0]]
+  /\ call' = [call EXCEPT ![c] = [Idle EXCEPT !.kind = "poll", !.pc = "load"]]
   /\ UNCHANGED <<tab, done, chClosed, cq, sq, sqClosed, writer, reader, nextC, nextS, backendRcvd, clientRcvd, backendSawClose, panic>>
 PollLoad(c) ==
   /\ call[c].kind = "poll" /\ call[c].pc = "load"
   /\ IF tab = "open" THEN Goto(c, "read") ELSE Ret(c, 400)
   /\ UNCHANGED <<tab, done, chClosed, cq, sq, sqClosed, writer, reader, nextC, nextS, backendRcvd, clientRcvd, backendSawClose, panic>>
-PollRead(c) ==          \* ReadServerMessages: first receive, then drain everything queued
+PollFirst(c) ==         \* ReadServerMessages: the first receive (blocks up to 20 s)
   /\ call[c].kind = "poll" /\ call[c].pc = "read"
   /\ \/ /\ sq # <<>>
-        /\ clientRcvd' = clientRcvd \o sq /\ sq' = <<>> /\ Ret(c, 200) /\ UNCHANGED tab
+        /\ sq' = Tail(sq)
+        /\ call' = [call EXCEPT ![c] = [@ EXCEPT !.pc = "drain", !.held = <<Head(sq)>>, !.cnt = Len(sq) - 1]]   \* (cnt: len(channel) now)
+        /\ UNCHANGED <<tab, clientRcvd>>
      \/ /\ sq = <<>> /\ sqClosed                       \* closed and drained: the session is reported closed
         /\ tab' = "deleted" /\ Ret(c, 400) /\ UNCHANGED <<clientRcvd, sq>>
      \/ /\ sq = <<>> /\ ~sqClosed                      \* 20 s without a message
         /\ Ret(c, 408) /\ UNCHANGED <<clientRcvd, sq, tab>>
   /\ UNCHANGED <<done, chClosed, cq, sqClosed, writer, reader, nextC, nextS, backendRcvd, backendSawClose, panic>>
+Deliver(c) == /\ clientRcvd' = clientRcvd \o call[c].held
+              /\ call' = [call EXCEPT ![c] = [@ EXCEPT !.pc = "returned", !.status = 200, !.held = <<>>]]
+PollDrain(c) ==         \* ... then everything else that is queued: select with default, one message per step
+  /\ call[c].kind = "poll" /\ call[c].pc = "drain"
+  /\ IF ~DrainByCount
+       THEN \/ /\ sq # <<>> /\ sq' = Tail(sq)
+               /\ call' = [call EXCEPT ![c].held = Append(@, Head(sq))] /\ UNCHANGED <<clientRcvd, panic>>
+            \/ /\ sq = <<>> /\ Deliver(c) /\ UNCHANGED <<sq, panic>>      \* default branch, or the channel was closed
+       ELSE IF call[c].cnt = 0
+              THEN Deliver(c) /\ UNCHANGED <<sq, panic>>
+              ELSE \/ /\ sq # <<>> /\ sq' = Tail(sq)                          \* plain blocking receive
+                      /\ call' = [call EXCEPT ![c] = [@ EXCEPT !.held = Append(@, Head(sq)), !.cnt = @ - 1]]
+                      /\ UNCHANGED <<clientRcvd, panic>>
+                   \/ /\ sq = <<>> /\ sqClosed                              \* receives nil from the closed channel:
+                      /\ panic' = TRUE /\ Ret(c, 0) /\ UNCHANGED <<sq, clientRcvd>>   \* nil dereference in Serialize
+  /\ UNCHANGED <<tab, done, chClosed, cq, sqClosed, writer, reader, nextC, nextS, backendRcvd, backendSawClose>>
 
 (* ---- close call ---- *)
 CloseStart(c) ==
   /\ call[c].pc = "idle"
-  /\ call' = [call EXCEPT ![c] = [kind |-> "close", pc |-> "load", status |-> 0]]
+  /\ call' = [call EXCEPT ![c] = [Idle EXCEPT !.kind = "close", !.pc = "load"]]
   /\ UNCHANGED <<tab, done, chClosed, cq, sq, sqClosed, writer, reader, nextC, nextS, backendRcvd, clientRcvd, backendSawClose, panic>>
 CloseLoad(c) ==         \* Load then Delete: two steps, two close calls can both see the entry
   /\ call[c].kind = "close" /\ call[c].pc = "load"
@@ -154,11 +174,11 @@ K(A) == /\ A /\ UNCHANGED bFirst      \* (history variables: only BackendClose s
 Next == \/ (BackendClose /\ bFirst' = TRUE /\ UNCHANGED last)
         \/ K(BackendSend \/ ReaderSeesDone \/ WriterStep)
         \/ \E c \in Calls : K(DataStart(c) \/ DataLoad(c) \/ DataCheck(c) \/ DataSend(c) \/ DataGiveUp(c)
-                               \/ PollStart(c) \/ PollLoad(c) \/ PollRead(c)
+                               \/ PollStart(c) \/ PollLoad(c) \/ PollFirst(c) \/ PollDrain(c)
                                \/ CloseStart(c) \/ CloseLoad(c) \/ CloseDelete(c) \/ CloseSend(c) \/ CloseGiveUp(c) \/ CloseChan(c))
 Fair == /\ WF_vars(K(WriterStep)) /\ WF_vars(K(ReaderSeesDone))
         /\ \A c \in Calls : /\ WF_vars(K(DataLoad(c))) /\ WF_vars(K(DataCheck(c))) /\ WF_vars(K(DataSend(c))) /\ WF_vars(K(DataGiveUp(c)))
-                            /\ WF_vars(K(PollLoad(c))) /\ WF_vars(K(PollRead(c)))
+                            /\ WF_vars(K(PollLoad(c))) /\ WF_vars(K(PollFirst(c))) /\ WF_vars(K(PollDrain(c)))
                             /\ WF_vars(K(CloseLoad(c))) /\ WF_vars(K(CloseDelete(c))) /\ WF_vars(K(CloseSend(c))) /\ WF_vars(K(CloseGiveUp(c))) /\ WF_vars(K(CloseChan(c)))
 Spec == Init /\ [][Next]_vars /\ Fair
 
@@ -167,7 +187,17 @@ IsPrefix(s, t) == Len(s) <= Len(t) /\ \A k \in 1..Len(s) : s[k] = t[k]
 Nat1(n) == [k \in 1..n |-> k]
 \* C11: each side receives exactly what the other sent, once, in order
 C2S == IsPrefix(backendRcvd, Nat1(nextC - 1))
-S2C == IsPrefix(clientRcvd, Nat1(nextS - 1))
+\* (server to client: polls may overlap, so the order across two polls in flight is not defined; what is defined
+\* is that every message the backend sent is in exactly one place - delivered, held by a poll in flight, or queued -
+\* and that each poll delivers its messages in the order they were sent)
+Occ(q, k) == Cardinality({i \in DOMAIN q : q[i] = k})
+Increasing(q) == \A i, j \in DOMAIN q : i < j => q[i] < q[j]
+SumHeld(k) == LET RECURSIVE Sum(_)
+                  Sum(S) == IF S = {} THEN 0 ELSE LET c == CHOOSE c \in S : TRUE IN Occ(call[c].held, k) + Sum(S \ {c})
+              IN Sum(Calls)
+S2C == /\ \A k \in 1..(nextS - 1) : Occ(clientRcvd, k) + SumHeld(k) + Occ(sq, k) = 1
+       /\ \A c \in Calls : Increasing(call[c].held)
+\* with one poll at a time the client receives the backend's messages as a prefix, in order
 \* C12: no call makes the agent panic
 NoPanic == ~panic
 Statuses == \A c \in Calls : call[c].pc = "returned" => call[c].status \in {200, 400, 408, 500}
@@ -177,6 +207,8 @@ Answered == \A c \in Calls : (call[c].pc # "idle") ~> (call[c].pc = "returned")
 CloseReachesBackend == \A c \in Calls : (call[c].kind = "close" /\ call[c].pc = "returned" /\ call[c].status = 200) ~> (backendSawClose \/ done)
 \* C12: when the backend closes first, polls deliver what was received and then report the session closed
 DrainThenClosed == [][\A c \in Calls : (call[c].kind = "poll" /\ call[c].pc = "read" /\ call'[c].pc = "returned" /\ call'[c].status = 400) => sq = <<>>]_vars
+\* a message taken out of the queue by a poll is delivered by that poll (never dropped on the floor)
+HeldIsDelivered == [][\A c \in Calls : (call[c].held # <<>> /\ call'[c].held = <<>>) => clientRcvd' = clientRcvd \o call[c].held]_vars
 
 (* ---- refinement: the shim implements the observable behaviour WsShimObs (one session) ---- *)
 DataCalls(P(_)) == Cardinality({c \in Calls : call[c].kind = "data" /\ P(c)})
@@ -194,6 +226,7 @@ Obs == INSTANCE WsShimObs WITH Sess <- S1,
          ocrecv <- [s \in S1 |-> Len(clientRcvd)],
          obclosed <- [s \in S1 |-> bFirst],
          osaw <- [s \in S1 |-> backendSawClose],
+         opolls <- [s \in S1 |-> Cardinality({c \in Calls : call[c].kind = "poll" /\ Pending(c)})],
          oans <- last
 ImplementsObs == Obs!OSpec
 =============================================================================
